@@ -42,6 +42,7 @@ EXHAUSTIVE = {"quick": "all 1 360 position sequences of length 2..5 over a 2x2 l
                        "3x2 lattice, each with 4 (resp. 3) tolerances and both modes",
               "thorough": "all 5 456 sequences of length 2..6 over a 2x2 lattice, all 9 324 of length 2..5 over a 3x2 lattice, "
                           "all 7 371 of length 2..4 over a 3x3 lattice, each with 4 (resp. 3) tolerances and both modes"}
+SOFT_MONITORS = ['dp.every_level_keeps_ends', 'distance_to_segment.finite_nonneg']      # contracts on private helpers: diagnostics, see vt/runner.py
 CASE_LIMIT_S = 20.0
 
 T0_MS = gen.ms_from_fields(2019, 7, 8, 9, 10, 11, 0)
